@@ -600,6 +600,9 @@ func (g *G) heredoc(depth int) *Node {
 		indent = g.R.Pick("  ", "\t", " ")
 	}
 	kind := g.R.Intn(4)
+	if g.O.Formatter && kind == 0 {
+		kind = 2 // the formatter turns a nowdoc into a heredoc (recorded finding)
+	}
 	var ns []*Node
 	var ps []interface{}
 	openTxt := "<<<" + OptHB + label + nl
@@ -663,7 +666,7 @@ func (g *G) heredoc(depth int) *Node {
 		last.Parts = []interface{}{tn(last.Val)}
 	}
 	n := &Node{Kind: "ScalarHeredoc", Kids: []Kid{list("Parts", ns)}, Parts: parts(t(openTxt), markStr(ps), tn(label)), Prec: 100}
-	if flex {
+	if flex || g.O.Formatter {
 		n.Flags |= FFlex73
 	}
 	return n
